@@ -25,16 +25,20 @@ pub struct Case {
     pub saw: usize,
 }
 
-struct Gen {
-    st: u64,
-    regime: usize,
-    base: f64,
-    x: f64,
-    saw: usize,
-    i: usize,
+pub struct Gen {
+    pub st: u64,
+    pub regime: usize,
+    pub base: f64,
+    pub x: f64,
+    pub saw: usize,
+    pub i: usize,
+    pub last_bar: Option<(f64, RawBar)>,
 }
 impl Gen {
-    fn next(&mut self) -> f64 {
+    pub fn new(seed: u64, regime: usize, base: f64, saw: usize) -> Gen {
+        Gen { st: seed ^ 0x5EED, regime, base, x: base * 30.0, saw: saw.max(2), i: 0, last_bar: None }
+    }
+    pub fn next(&mut self) -> f64 {
         let u = unit(&mut self.st);
         let (lo, hi) = (self.base, self.base * 1000.0);
         let v = match self.regime {
@@ -73,8 +77,19 @@ impl Gen {
         self.i += 1;
         v
     }
-    fn bar(&mut self) -> RawBar {
+    pub fn bar(&mut self) -> RawBar {
         let x = self.next();
+        // plateaus: an unchanged price repeats the identical bar (exact typical-price ties, only the
+        // volume varies), which is what exercises the tie branch of MFI / flat windows of CCI
+        if self.regime == 3 {
+            if let Some((px, pb)) = self.last_bar {
+                if px == x {
+                    let mut b = pb;
+                    b.v = (1.0 + 999.0 * unit(&mut self.st)).round();
+                    return b;
+                }
+            }
+        }
         let a = unit(&mut self.st);
         let b = unit(&mut self.st);
         let cpos = unit(&mut self.st);
@@ -89,17 +104,42 @@ impl Gen {
         let h = x * (1.0 + 0.02 * a);
         let l = x * (1.0 - 0.02 * b);
         let c = l + (h - l) * cpos;
-        RawBar { o: x.clamp(l, h), h, l, c: c.clamp(l, h), v: (1.0 + 9999.0 * vu * vu).round() }
+        let b = RawBar { o: x.clamp(l, h), h, l, c: c.clamp(l, h), v: (1.0 + 9999.0 * vu * vu).round() };
+        self.last_bar = Some((x, b));
+        b
     }
 }
 
 pub fn check(c: &Case, ctx: &mut Ctx) -> Result<(), Failure> {
+    check_as(c, ctx, "C13", true)
+}
+
+/// is step t (1-based) inside a window right after a power-of-two boundary (2^8 .. 2^25)?
+/// Narrow counters and block thresholds change behaviour exactly there.
+pub fn near_pow2(t: usize, n: usize) -> bool {
+    if t < 254 {
+        return false;
+    }
+    let p = (t + 2).next_power_of_two();
+    let p = if p > t + 2 { p / 2 } else { p };
+    // p = largest power of two <= t+2
+    p >= 256 && t + 2 >= p && t <= p + n + 3
+}
+
+/// shared long-run check: `id` prefixes the signatures (C13, or C01/C03 for their ultra-long stages),
+/// `pow2` adds dense sampling right after every power-of-two step count
+pub fn check_as(c: &Case, ctx: &mut Ctx, id: &str, pow2: bool) -> Result<(), Failure> {
+    check_mode(c, ctx, id, pow2, false)
+}
+
+/// `sign_only`: check only the every-step invariant (variance / dispersion never negative or NaN)
+pub fn check_mode(c: &Case, ctx: &mut Ctx, id: &str, pow2: bool, sign_only: bool) -> Result<(), Failure> {
     let k = c.kind;
     let name = k.name();
     let n = c.n;
     let cfg = Cfg { kind: k, p: vec![n], m: X(2.0) };
     let mut ind = Ind::build(k, &cfg.params()).map_err(|_| Failure { signature: "C13:harness".into(), detail: "HARNESS build".into() })?;
-    let mut gen = Gen { st: c.seed ^ 0x5EED, regime: c.regime, base: c.base.0, x: c.base.0 * 30.0, saw: c.saw.max(2), i: 0 };
+    let mut gen = Gen::new(c.seed, c.regime, c.base.0, c.saw);
     let mut pick = c.seed.wrapping_mul(0x9E3779B97F4A7C15) | 1;
     let bars_kind = matches!(k, Kind::Cci | Kind::Mfi);
     let cap = n + 1;
@@ -131,11 +171,17 @@ pub fn check(c: &Case, ctx: &mut Ctx) -> Result<(), Failure> {
         if matches!(k, Kind::Sd | Kind::Bb) {
             let sdv = if k == Kind::Sd { out.x() } else { (out.v[1] - out.v[0]) / 2.0 };
             if !(sdv >= 0.0 || (k == Kind::Bb && sdv > -1e-3 * big)) || out.vals().iter().any(|v| v.is_nan()) {
-                ctx.fail(format!("C13:{}:variance_negative_or_nan", name), format!("{}({}) regime {} step {}: output {:?}", name, n, REGIMES[c.regime], i, out.vals()))?;
+                ctx.fail(format!("{}:{}:variance_negative_or_nan", id, name), format!("{}({}) regime {} step {}: output {:?}", name, n, REGIMES[c.regime], i, out.vals()))?;
             }
         }
-        let sampled = t <= 3 * n + 50 || t == c.len || unit(&mut pick) < sample_p;
-        if !sampled {
+        let sampled = t <= 3 * n + 50 || t + 2 >= c.len || unit(&mut pick) < sample_p || (pow2 && near_pow2(t, n));
+        if k == Kind::Mad && !(out.x() >= 0.0) {
+            ctx.fail(format!("{}:{}:variance_negative_or_nan", id, name), format!("{}({}) regime {} step {}: output {:?}", name, n, REGIMES[c.regime], i, out.vals()))?;
+        }
+        if !sampled || sign_only {
+            if sign_only && sampled {
+                checked += 1;
+            }
             continue;
         }
         // materialise the window, oldest first
@@ -234,7 +280,7 @@ pub fn check(c: &Case, ctx: &mut Ctx) -> Result<(), Failure> {
         ctx.worst(&format!("{}:{}", name, REGIMES[c.regime]), ratio);
         if let Some(what) = fail {
             ctx.fail(
-                format!("C13:{}:{}:drift", name, REGIMES[c.regime]),
+                format!("{}:{}:{}:drift", id, name, REGIMES[c.regime]),
                 format!("{}({}) regime {} (band base {:e}, saw period {}) after {} inputs: {}", name, n, REGIMES[c.regime], c.base.0, c.saw, t, what),
             )?;
             return Ok(());
@@ -246,7 +292,7 @@ pub fn check(c: &Case, ctx: &mut Ctx) -> Result<(), Failure> {
     ctx.label_n("sampled_steps_skipped_illconditioned", ill);
     ctx.label_n("stream_steps", c.len as u64);
     if checked >= 100 {
-        let mut fp = Fp::new("C13");
+        let mut fp = Fp::new(id);
         fp.u(k.idx() as u64);
         fp.u(n as u64);
         fp.u(c.regime as u64);
